@@ -177,12 +177,15 @@ def _fix_undefined_variables(source: str, variables: Collection[str]) -> str:
             logger.debug("Inserting '{fix}' at line {lineno}", fix=fix, lineno=lineno)
             lines.insert(lineno, fix)
 
-    for package in (constants.ASSUMED_PACKAGES | constants.PYTHON_311_STDLIB) & variables:
+    # Every import is inserted at the same line, the last one inserted comes first
+    for package in sorted(
+        (constants.ASSUMED_PACKAGES | constants.PYTHON_311_STDLIB) & variables, reverse=True
+    ):
         fix = f"import {package}"
         logger.debug("Inserting '{fix}' at line {lineno}", fix=fix, lineno=lineno)
         lines.insert(lineno, fix)
 
-    for alias in constants.PACKAGE_ALIASES.keys() & variables:
+    for alias in sorted(constants.PACKAGE_ALIASES.keys() & variables, reverse=True):
         package = constants.PACKAGE_ALIASES[alias]
         fix = f"import {package} as {alias}"
         logger.debug("Inserting '{fix}' at line {lineno}", fix=fix, lineno=lineno)
